@@ -4,7 +4,7 @@ from __future__ import annotations
 
 import ast
 
-from sa.cfg import dominators, reachable, reaches, specialize, test_atoms
+from sa.cfg import all_paths_pass, dominators, reachable, reaches, specialize, test_atoms
 from sa.db import AnalysisError, FuncInfo, bind_args, dotted, src, walk_local
 from sa.flow import backward_slice, defs_reaching, reaching_defs
 from sa.model import contains, enclosing, execute_impl_funcs, is_user_func_call, superstep_funcs
@@ -298,6 +298,7 @@ def run(ctx) -> None:
         else:
             whyg = "activation consults every declared controlling gate of a node"
     rep.add("C03.R7", f"{gan_.qname}:all-declared-gates-consulted", okg, gan_.loc(), whyg)
+    check_any_gate_activates(ctx, "C03.R7")
 
     # ---- R5 ---------------------------------------------------------------------
     check_ready_list_provenance(ctx, "C03.R5")
@@ -375,6 +376,31 @@ def check_ready_conjunction(ctx, rule: str) -> None:
                     if not reaches(t, r):
                         ok, why = False, f"a ready verdict is reachable without evaluating {k}"
     rep.add(rule, f"{f.qname}:conjunction", ok, f.loc(), why)
+
+
+def check_any_gate_activates(ctx, rule: str) -> None:
+    db, rep = ctx.db, ctx.rep
+    gan_ = db.func("runners._shared.helpers._get_activated_nodes")
+    gate_lists = set()
+    for lp in [n for n in walk_local(gan_.node) if isinstance(n, ast.For) and isinstance(n.iter, ast.Name)]:
+        if any(isinstance(x, ast.Attribute) and x.attr == "routing_decisions" for x in ast.walk(lp)):
+            gate_lists.add(lp.iter.id)
+    # activation is an OR over the controlling gates: the scan over a node's gates is left early only after the
+    # node was activated (a gate whose decision names another target must not end the scan)
+    gcfg_ = ctx.cfg(gan_)
+    gloops = [n for n in gcfg_.nodes if n.kind == "for" and isinstance(n.ast.iter, ast.Name) and n.ast.iter.id in gate_lists]
+    adds_ = [n for n in gcfg_.nodes if any(isinstance(c.func, ast.Attribute) and c.func.attr == "add" for c in gcfg_.calls_at(n))]
+    oko = bool(gloops) and bool(adds_)
+    whyo = "scan over controlling gates not recognised"
+    for lp in gloops:
+        start = [t for t, l, _ in lp.succ if l == "T"]
+        brks = [n for n in gcfg_.nodes if n.kind == "stmt" and isinstance(n.ast, ast.Break) and contains(lp.ast, n.ast) and enclosing(n.ast, (ast.For, ast.While)) is lp.ast]
+        for b in brks:
+            if not (start and all_paths_pass(start[0], b, adds_, lambda a, b_, l, i: l != "exc" and a is not lp)):
+                oko, whyo = False, f"the scan over a node's controlling gates can stop (line {b.lineno}) before the node was activated: the first gate with a live decision settles the question alone, so a node that a later gate did route to is never activated (a loop body targeted by two gates stalls)"
+        if oko:
+            whyo = "the scan over controlling gates ends early only once the node is activated (any gate may activate it)"
+    rep.add(rule, f"{gan_.qname}:any-gate-activates", oko, gan_.loc(), whyo)
 
 
 def check_ready_list_provenance(ctx, rule: str) -> None:
